@@ -66,6 +66,18 @@ Theorem C22_reentrant_free_means_unused :
 Proof. exact ReentrantProofs.reentrant_free_means_unused. Qed.
 Print Assumptions C22_reentrant_free_means_unused.
 
+(** ... and non-zero only when some thread owns the lock ([nestc] > 0: more lock() than unlock() calls of that
+    thread have returned) or is inside lock()/try_lock() and has just taken the word ([acqp] > 0: a successful
+    CAS 0->1 / fetch_add on m_spin not yet followed by its "enter").  With the two theorems above: the word
+    returns to 0 exactly at the owner's last unlock. *)
+Theorem C22_reentrant_word_nonzero_only_if_used :
+  forall (fuel : nat) (ths : list (list Reentrant.op)) c,
+    Conc.reach (Reentrant.init_cfg fuel ths) c ->
+    forall l, (Reentrant.spin (Conc.shared c) l > 0)%nat ->
+      exists t, ReentrantProofs.nestc t l (Conc.trace c) > 0 \/ ReentrantProofs.acqp t l (Conc.trace c) > 0.
+Proof. exact ReentrantProofs.reentrant_word_nonzero_only_if_used. Qed.
+Print Assumptions C22_reentrant_word_nonzero_only_if_used.
+
 Definition is_acc (k : akind) (ok : bool) (e : ev) : bool :=
   match e, k with
   | EvAcc KFaa _ o, KFaa => Bool.eqb o ok
